@@ -393,7 +393,7 @@ func (w *wbuild) driveRemote(s *simrt.Sched, out *RunResult, u *Universe, cs *wb
 			evl := NewEval(w.U, opts.Platform)
 			for _, e := range res.Events {
 				if e.Kind == "cmd" && e.Exit == 0 && !e.Killed && w.U.Specs[e.Label] != nil {
-					if k := evl.Strict(e.Label); m.cm.strict[k] {
+					if k := evl.Strict(e.Label); m.cm.strict[k] && w.recordedNow[k] {
 						remote.strict[k] = true
 						remote.loose[evl.Loose(e.Label)] = true
 					}
